@@ -45,8 +45,8 @@ m("C01-d-ignore-sign-bit", "bls12381_utils.c",
 m("C02-a-index-offset", "bls_core.c",
   """      data_offset += len_hashes[index_offset];
       index_offset++;""",
-  """      data_offset += len_hashes[index_offset];
-      if (j + 1 < hashes_per_pk[i - 1]) index_offset++;""", ["C02"])
+  """      if (j > 0 || hashes_per_pk[i - 1] < 3) data_offset += len_hashes[index_offset];
+      index_offset++;""", ["C02"], note="data offset not advanced for the first hash of a key that signs >= 3 messages")
 m("C02-b-hasher0-for-all", "bls_multisig.go",
   """		hashes = append(hashes, k.ComputeHash(messages[i]))""",
   """		hashes = append(hashes, kmac[0].ComputeHash(messages[i]))""", ["C02"])
@@ -264,7 +264,7 @@ m("C13-a-bufsize-gt-rate", "hash/keccak.go",
 			}""", ["C13"])
 m("C13-b-fast-path-condition", "hash/keccak.go",
   """		if d.bufSize == 0 && len(p) >= d.rate {""",
-  """		if len(p) >= d.rate+d.bufSize*1000 {""", ["C13"], note="equivalent-looking; tests whether the fast path condition matters")
+  """		if d.bufSize <= 1 && len(p) >= d.rate {""", ["C13"], note="fast full-block path taken with one byte pending in the buffer")
 m("C13-c-bytepad", "hash/kmac.go",
   """	padlen := (w - (len(buf) % w)) % w""",
   """	padlen := w - (len(buf) % w)""", ["C13"], note="the repaired defect F3, reverted")
